@@ -104,6 +104,18 @@ def check(ctx):
                 "consumed a multi-byte char, a spelling different from the pattern, a stack span, or ran on a sub-span; distinct = (shape, input)"
                 % ("{2,3,5,12,13,16}" if ctx.tier == "quick" else "2..16"))
     ctx.assumptions.append("real-path theorems (C17_*_impl) assume the repaired environment `fixed E` of C05; skip_until on sub-inputs (F3) is outside C17's runs")
+    # first match also when the alternatives touch the parse stack: a failed earlier alternative must not change what a
+    # later one sees (stack family of the core catalogue; oracle = the full-backtracking reference, whose tree names the
+    # alternative taken)
+    from .. import rtcat
+    envs, run = core.core_run(ctx.tier)
+
+    def t3_stack(sid, f, x, a):
+        got = rtcat.p_core(f["P"])
+        if got != a:
+            return "the alternative / tree reported differs from the first alternative that matches: parse gives %s but the reference gives %s" % (got[:200], (a or "")[:200])
+        return None
+    core.scan(ctx, envs, run, ("stack",), t3_stack, lambda sid, f, a: "Choice" in f["P"], "choice accessor off its spec (first matching alternative)")
     return ctx.finish(level="proof", trusted_base=tb.BASE + [
         "vlib/arity.py oracle: an independent string-level matcher for the literal/range/stack shapes of the harness",
         "pest::unicode tables are sampled from the real crate for the model (T2); the oracle (T3) uses Python's unicodedata"])
